@@ -243,6 +243,12 @@ func main() {
 						for i, nm := range vs.Names {
 							pkgVars[nm.Name] = true
 							if i < len(vs.Values) {
+								// package-level variables whose initial value is produced by a call: the places
+								// where mutable state shared by all conversations could live (hash instances,
+								// buffers built by append/make, caches)
+								if ce, ok := vs.Values[i].(*ast.CallExpr); ok {
+									pkgVarsByCall = append(pkgVarsByCall, nm.Name+"="+exprName(ce.Fun))
+								}
 								if b, ok := evalBytes(vs.Values[i]); ok {
 									bytesV[nm.Name] = b
 								}
@@ -452,6 +458,8 @@ func main() {
 	sort.Strings(ap)
 	sb.WriteString("def pkgVarWritesOutsideInit : List String := " + leanStrs(pw) + "\n")
 	sb.WriteString("def pkgSlicesUsedAsAppendPrefix : List String := " + leanStrs(ap) + "\n")
+	sort.Strings(pkgVarsByCall)
+	sb.WriteString("def pkgVarsInitialisedByCall : List String := " + leanStrs(pkgVarsByCall) + "\n")
 
 	// AKE / SMP transition skeletons: state constructors mentioned in return statements of each handler
 	for _, pfx := range []string{"authState", "smpState"} {
@@ -484,4 +492,27 @@ func main() {
 	if err := os.WriteFile(outPath, []byte(sb.String()), 0644); err != nil {
 		panic(err)
 	}
+}
+
+var pkgVarsByCall []string
+
+// a short rendering of the function part of a call expression
+func exprName(e ast.Expr) string {
+	switch x := e.(type) {
+	case *ast.Ident:
+		return x.Name
+	case *ast.SelectorExpr:
+		return exprName(x.X) + "." + x.Sel.Name
+	case *ast.CallExpr:
+		return exprName(x.Fun) + "()"
+	case *ast.ArrayType:
+		return "[]" + exprName(x.Elt)
+	case *ast.ParenExpr:
+		return exprName(x.X)
+	case *ast.StarExpr:
+		return "*" + exprName(x.X)
+	case *ast.FuncLit:
+		return "func"
+	}
+	return "?"
 }
